@@ -9,7 +9,8 @@ from vlib import runner, sut, corpusio, fuzz
 from vlib.compare import first_value_diff
 from vlib.runner import Outcome, Report
 from gen import messages as gmsg
-from refbufr import message as rmessage, IllFormed, Unsupported
+from refbufr import message as rmessage, frame, tables as rtables, IllFormed, Unsupported
+from gen import pool as gpool
 
 PID = 'C01'
 OPERATOR_FEATURES = {'201', '202', '203', '203_applied', '204', '205', '206', '207', '208', '221', '222', '223',
@@ -138,6 +139,26 @@ def run(tier, seed):
     opts = gen_opts(tier)
     runner.run_generated(rep, lambda ch: gmsg.gen_case(ch, opts), check_case, n, workers,
                          shrink_s=20 if tier == 'quick' else 120)
+    # the Table B of the version the message names: elements that two versions define with the same width but another
+    # scale / reference value, decoded one after the other by the one decoder object the other stages share
+    vs = gmsg.QUICK_VERSIONS + [16, 37] if tier == 'quick' else rtables.available_master_versions()
+    n_pairs = 0
+    for i, v1 in enumerate(vs):
+        for v2 in vs[i + 1:]:
+            for e in gpool.version_diff_elements(min(v1, v2), max(v1, v2))[:6]:
+                for order in ((v1, v2), (v2, v1)):
+                    for v in order:
+                        meta = frame.default_meta(4)
+                        meta.update({'master_table_version': v, 'n_subsets': 1, 'is_compressed': False})
+                        w = gpool.pool_for(v).tables.B[e].nbits
+                        case = gmsg.case_from_raws(meta, [e, e], subsets=[[1, (1 << w) - 2]])
+                        out = check_case(case)
+                        rep.add_case(case.key(), True, ['same_element_in_two_table_versions'], None)
+                        for clause, detail in out.failures:
+                            rep.add_failure('table versions: ' + clause, dict(detail, decoded_before=list(order)), case.to_json(),
+                                            stage='table versions')
+                n_pairs += 1
+    rep.extra['table_version_twins'] = n_pairs
     # corpus
     stride = 20 if tier == 'quick' else 1
     items = corpusio.messages(stride=stride, offset=seed)
